@@ -20,9 +20,12 @@ import (
 	"os"
 	"os/exec"
 	"path/filepath"
+	"runtime"
 	"sort"
 	"strings"
 	"sync"
+	"sync/atomic"
+	"time"
 
 	ocispec "github.com/opencontainers/image-spec/specs-go/v1"
 	"oras.land/oras-go/v2/content"
@@ -30,12 +33,15 @@ import (
 	"oras.land/oras-go/v2/content/memory"
 	"oras.land/oras-go/v2/content/oci"
 	"oras.land/oras-go/v2/errdef"
+	"oras.land/oras-go/v2/internal/verifhook"
 	"oras.land/oras-go/v2/verifharness/evidence"
 	"oras.land/oras-go/v2/verifharness/gen"
 	"oras.land/oras-go/v2/verifharness/worker"
 )
 
 var ctx = context.Background()
+
+var hookHits atomic.Int64
 
 type graphStore interface {
 	content.Storage
@@ -256,10 +262,25 @@ func runCase(phase string, i int) worker.Result {
 		}
 	}
 	if orderClass == "concurrent" {
+		// widen the windows between the store's critical sections
+		jseed := rng.Uint64()
+		var jn atomic.Uint64
+		h := func(point, key string) {
+			v := (jn.Add(1)*0x9e3779b97f4a7c15 ^ jseed) >> 40
+			for j := uint64(0); j < v%3; j++ {
+				runtime.Gosched()
+			}
+			if v%5 == 0 {
+				time.Sleep(time.Duration(v%50) * time.Microsecond)
+			}
+			hookHits.Add(1)
+		}
+		verifhook.Handler.Store(&h)
+		defer verifhook.Handler.Store(nil)
 		var wg sync.WaitGroup
 		var mu sync.Mutex
 		var firstErr error
-		k := 2 + rng.IntN(6)
+		k := 2 + rng.IntN(15)
 		ch := make(chan int)
 		for w := 0; w < k; w++ {
 			wg.Add(1)
@@ -301,6 +322,22 @@ func runCase(phase string, i int) worker.Result {
 		history = append(history, step{Op: fmt.Sprintf("push-concurrent(%d workers)", k)})
 		if !check("after concurrent push") {
 			return res
+		}
+		res.Count("hook_hits", int64(hookHits.Load()))
+		if kind == "oci" {
+			// what the concurrent pushes left on disk must reopen to the same relation
+			ro, how, err := reopen(dir, rng.IntN(4))
+			if err != nil {
+				res.Violate("reopen-failed", fmt.Sprintf("reopen(%s) after concurrent pushes: %v", how, err), witness(g, kind, orderClass, history))
+				return res
+			}
+			saved := st
+			st = roStore{ro}
+			ok := check("after concurrent push and reopen-" + how)
+			st = saved
+			if !ok {
+				return res
+			}
 		}
 	} else {
 		for n, id := range order {
